@@ -18,6 +18,7 @@
 -/
 import ControlModel.Gen.QueryTables
 import ControlModel.Proofs.Query
+import ControlModel.Proofs.QueryConc
 
 open Query Spec.C20
 
@@ -339,3 +340,149 @@ example :
     noStale ops = true ∧ opsWf ops = true ∧ seqEscapeFree t ops = true ∧
     run (freshSvc t) ops = [.pay (.ok ['[', 'A', ']', 't', '=', 'f']), .pay (.ok ['[', 'B', ']', 't', '=']),
                             .pay (.ok ['<', 'C', '>']), .pay (.ok ['<', '>'])] := by decide
+
+/-! ## concurrent requests on one service over an unchanged configuration
+
+  The front-ends run many lookups at once on ONE `Service`, hence on one backend object and one set of template sets.
+  `Prog` = a request as a program of atomic steps (an existence probe, a value read, the template-set step under its
+  mutex); `Conf.run c sched` = the pool of requests in flight executed under the schedule `sched` (which thread moves
+  next) — any interleaving. The backend is a tree that does not change; that this is what the file backend offers when
+  nobody modifies the file is pinned on the source by `C20_refresh_publishes_complete_trees_is_code`. -/
+
+/-- What the model assumes about the file backend is what yamlsource.go does (go/ast, re-extracted on every run): inside
+    `refresh` the shared snapshot `yc.data` is cleared only in blocks that leave with an error, and a tree is assigned to
+    it exactly once, outside those blocks, after the file has been read, parsed and converted — so a concurrent reader
+    finds the previous complete tree or the new complete tree, never an empty or half-built one; and no function of the
+    lookup path writes into a tree. -/
+theorem C20_refresh_publishes_complete_trees_is_code :
+    refreshDataWrites = Gen.C20.refreshDataWrites ∧ readPathElemWrites = Gen.C20.readPathElemWrites ∧
+    publishesOnlyCompleteTrees Gen.C20.refreshDataWrites = true ∧ Gen.C20.readPathElemWrites = 0 := by decide
+
+/-- A request's program, run alone to its end, computes the request's sequential answer: the four existence probes are
+    `resolve`, Exists + Get is `getComponent`, the template-set step on a service without cached templates followed by
+    the execution is `processT`. -/
+theorem C20_conc_program_is_sequential_answer (t : List Leaf) (rq : Req) : Prog.eval t (progOf rq) = rq.answer t :=
+  eval_progOf t rq
+
+/-- …and the sequential answer is the answer of the history model to the one-request history on a fresh service (the
+    model the `seq` class ties to the code). -/
+theorem C20_conc_answer_is_history_answer (t : List Leaf) (q : Query) (vars : List (Str × Str)) :
+    run (freshSvc t) [.get q] = [(Req.get q).answer t] ∧
+    run (freshSvc t) [.proc q vars] = [(Req.proc q vars).answer t] ∧
+    run (freshSvc t) [.rproc q vars] = [(Req.rproc q vars).answer t] := by
+  refine ⟨rfl, rfl, ?_⟩
+  simp only [run, step, Req.answer, freshSvc]
+  cases resolve (yamlExists t) q <;> rfl
+
+/-- CONCURRENCY IS INVISIBLE. For every tree, every multiset of requests accepted at once by a service, EVERY schedule of
+    their atomic steps and every request of the pool: whenever the request has finished, its answer is its sequential
+    answer — the answer it gets when issued alone on a fresh service. -/
+theorem C20_conc_answer_is_sequential (t : List Leaf) (reqs : List Req) (sched : List Nat) (i : Nat) (r : Resp)
+    (h : ((startConf t reqs).run sched).answer? i = some r) :
+    ∃ rq, reqs[i]? = some rq ∧ r = rq.answer t := by
+  have ha := ((ConcInv.start t reqs).run sched).answer i r h
+  rw [List.getElem?_map] at ha
+  cases hq : reqs[i]? with
+  | none => simp [hq] at ha
+  | some rq => exact ⟨rq, rfl, by simpa [hq] using ha.symm⟩
+
+/-- The schedule does not matter: two runs of the same pool under any two schedules give a request the same answer. -/
+theorem C20_conc_schedule_irrelevant (t : List Leaf) (reqs : List Req) (sched sched' : List Nat) (i : Nat) (r r' : Resp)
+    (h : ((startConf t reqs).run sched).answer? i = some r)
+    (h' : ((startConf t reqs).run sched').answer? i = some r') : r = r' := by
+  obtain ⟨rq, hq, rfl⟩ := C20_conc_answer_is_sequential t reqs sched i r h
+  obtain ⟨rq', hq', rfl⟩ := C20_conc_answer_is_sequential t reqs sched' i r' h'
+  rw [hq] at hq'
+  cases hq'
+  rfl
+
+/-- The company does not matter: the answer to a request is the same whatever other requests are in flight with it
+    (another pool, another position, another schedule). -/
+theorem C20_conc_independent_of_other_requests (t : List Leaf) (reqs reqs' : List Req) (sched sched' : List Nat)
+    (i i' : Nat) (rq : Req) (r r' : Resp) (hi : reqs[i]? = some rq) (hi' : reqs'[i']? = some rq)
+    (h : ((startConf t reqs).run sched).answer? i = some r)
+    (h' : ((startConf t reqs').run sched').answer? i' = some r') : r = r' := by
+  obtain ⟨q, hq, rfl⟩ := C20_conc_answer_is_sequential t reqs sched i r h
+  obtain ⟨q', hq', rfl⟩ := C20_conc_answer_is_sequential t reqs' sched' i' r' h'
+  rw [hi] at hq
+  rw [hi'] at hq'
+  cases hq
+  cases hq'
+  rfl
+
+/-- Lookups leave the backend as it was, and every template the service has cached by then is the compilation of its
+    entry against that backend — under every schedule. -/
+theorem C20_conc_backend_untouched (t : List Leaf) (reqs : List Req) (sched : List Nat) :
+    ((startConf t reqs).run sched).svc.tree = t ∧
+    ∀ e ∈ ((startConf t reqs).run sched).svc.cache, compileP t e.1 = .ok e.2 := by
+  have h := (ConcInv.start t reqs).run sched
+  refine ⟨h.tree, fun e he => ?_⟩
+  have := h.current e he
+  rwa [h.tree] at this
+
+/-- Every request is answered: under any schedule that lets each thread move six times (four existence probes, then the
+    two reads of the payload or the template-set step), whatever the other threads do in between, every request of the
+    pool has finished — with its sequential answer. -/
+theorem C20_conc_all_answered (t : List Leaf) (reqs : List Req) (sched : List Nat)
+    (hfair : ∀ i, i < reqs.length → 6 ≤ sched.count i) (i : Nat) (rq : Req) (hi : reqs[i]? = some rq) :
+    ((startConf t reqs).run sched).answer? i = some (rq.answer t) := by
+  have hlt : i < reqs.length := by
+    rcases Nat.lt_or_ge i reqs.length with hl | hl
+    · exact hl
+    · rw [List.getElem?_eq_none hl] at hi; cases hi
+  have hp : (startConf t reqs).pool[i]? = some (progOf rq) := by simp [startConf, hi]
+  have hs := Conf.run_finishes sched i (startConf t reqs) 6 (progOf rq) hp (doneWithin_progOf rq) (hfair i hlt)
+  cases ha : ((startConf t reqs).run sched).answer? i with
+  | none => simp [ha] at hs
+  | some r =>
+    obtain ⟨rq', hq', rfl⟩ := C20_conc_answer_is_sequential t reqs sched i r ha
+    rw [hi] at hq'
+    cases hq'
+    rfl
+
+/-- …in particular under the round-robin schedule (every thread in turn, six times over). -/
+theorem C20_conc_round_robin_answers_all (t : List Leaf) (reqs : List Req) :
+    reqs.mapIdx (fun i _ => ((startConf t reqs).run (roundRobin reqs.length 6)).answer? i) =
+      reqs.map (fun rq => some (rq.answer t)) := by
+  apply List.ext_getElem?
+  intro i
+  simp only [List.getElem?_mapIdx, List.getElem?_map]
+  cases hi : reqs[i]? with
+  | none => rfl
+  | some rq =>
+    simp only [Option.map_some]
+    rw [C20_conc_all_answered t reqs _ (fun j hj => by rw [count_roundRobin _ _ _ hj]; exact Nat.le_refl 6) i rq hi]
+
+/-- The backend assumption is needed, not decoration: if ONE probe of a request reads a cleared snapshot (an empty tree)
+    instead of the configuration, the request's answer can differ from its sequential answer — a less specific entry
+    than the one that exists. (`Prog.step ⟨[], []⟩` = one step against the cleared snapshot, `Prog.eval t` = the rest
+    against the real tree.) -/
+theorem C20_conc_cleared_snapshot_is_visible :
+    ∃ (t : List Leaf) (rq : Req), Prog.eval t ((progOf rq).step ⟨[], []⟩).2 ≠ rq.answer t := by
+  let dir : List Str := [['o', '2'], ['c', 'o', 'm', 'p', 'o', 'n', 'e', 'n', 't', 's'], ['q', 'c']]
+  refine ⟨[⟨dir ++ [['P', 'H', 'Y', 'S', 'I', 'C', 'S'], ['r'], ['e']], some ['x']⟩,
+           ⟨dir ++ [['A', 'N', 'Y'], ['a', 'n', 'y'], ['e']], some ['y']⟩],
+          .res ⟨['q', 'c'], 1, ['r'], ['e']⟩, ?_⟩
+  decide
+
+/-- The model's observation of a concurrent case satisfies the Spec the harness evaluates on the implementation: every
+    answer — alone or under concurrency — names the most specific existing entry, returns the named entry's content,
+    templates it with the request's own variables (well-formed queries, values free of the autoescaped characters). -/
+theorem C20_conc_model_meets_spec_partial (t : List Leaf) (reqs : List Req) (hwf : reqs.all reqWf = true)
+    (hesc : reqs.all (reqEscFree t) = true) : concOk t reqs (modelConcObs t reqs) = true :=
+  concOk_model t reqs hwf hesc
+
+/-- Non-vacuity: three requests on a tree where the exact entry and ANY/any exist, under a schedule that interleaves
+    their probes; each finishes with its sequential answer. -/
+example :
+    let dir : List Str := [['o', '2'], ['c', 'o', 'm', 'p', 'o', 'n', 'e', 'n', 't', 's'], ['q', 'c']]
+    let t : List Leaf := [⟨dir ++ [['P', 'H', 'Y', 'S', 'I', 'C', 'S'], ['r'], ['e']], some ['x', '=', '{', '{', 'a', '}', '}']⟩,
+                          ⟨dir ++ [['A', 'N', 'Y'], ['a', 'n', 'y'], ['e']], some ['y']⟩]
+    let q : Query := ⟨['q', 'c'], 1, ['r'], ['e']⟩
+    let q2 : Query := ⟨['q', 'c'], 2, ['s'], ['e']⟩
+    let reqs : List Req := [.rget q2, .rproc q [(['a'], ['1'])], .res q]
+    let c := (startConf t reqs).run [0, 1, 2, 0, 1, 0, 2, 0, 1, 0, 0, 2]
+    reqs.all reqWf = true ∧ reqs.all (reqEscFree t) = true ∧
+    c.answer? 0 = some (.res (some ⟨['q', 'c'], 300, ['a', 'n', 'y'], ['e']⟩) (.ok ['y'])) ∧
+    c.answer? 1 = some (.res (some q) (.ok ['x', '=', '1'])) ∧
+    c.answer? 2 = some (.res (some q) .dash) := by decide
